@@ -2,60 +2,38 @@ package c11
 
 import (
 	"bytes"
-	"encoding/binary"
+	"encoding/json"
 	"fmt"
-	"runtime"
+	"os"
 	"testing"
-	"time"
 
 	zed "github.com/brimdata/super"
-	"github.com/brimdata/super/compiler/optimizer/demand"
-	"github.com/brimdata/super/zio/anyio"
 	"github.com/brimdata/super/zio/zngio"
+	"github.com/brimdata/super/zson"
+	"verif/oracle"
 )
 
-func zngChain(n int) []byte {
-	var body []byte
-	for i := 0; i < n; i++ {
-		body = append(body, 1)
-		id := 9
-		if i > 0 {
-			id = 30 + i - 1
-		}
-		body = binary.AppendUvarint(body, uint64(id))
-	}
-	out := []byte{byte(len(body) & 0xf)}
-	out = binary.AppendUvarint(out, uint64(len(body)>>4))
-	out = append(out, body...)
-	// one null value of the deepest type
-	var vb []byte
-	vb = binary.AppendUvarint(vb, uint64(30+n-1))
-	vb = append(vb, 0)
-	out = append(out, 0x10|byte(len(vb)&0xf))
-	out = binary.AppendUvarint(out, uint64(len(vb)>>4))
-	return append(out, vb...)
-}
-
 func TestProbe(t *testing.T) {
-	for _, n := range []int{500, 1000, 2000, 4000, 8000, 16000} {
-		in := zngChain(n)
-		var m0, m1 runtime.MemStats
-		runtime.ReadMemStats(&m0)
-		t0 := time.Now()
-		rc, err := anyio.NewReaderWithOpts(zed.NewContext(), bytes.NewReader(in), demand.All(), anyio.ReaderOpts{Format: "zng", ZNG: zngio.ReaderOpts{Threads: 1, Max: 1 << 20}})
-		nv := 0
-		var rerr error
-		if err == nil {
-			for {
-				v, err := rc.Read()
-				if v == nil || err != nil {
-					rerr = err
-					break
-				}
-				nv++
-			}
+	b, _ := os.ReadFile("/var/tmp/c11scratch/found/crash-f1655841.json")
+	var rf replayFile
+	json.Unmarshal(b, &rf)
+	c := rf.Case
+	input := applyScript(c.Base, c.Splice, c.Script)
+	meta, ok := looksLikeVNG(input)
+	fmt.Println("vng?", ok, len(meta))
+	zctx := zed.NewContext()
+	r := zngio.NewReaderWithOpts(zctx, bytes.NewReader(meta), zngio.ReaderOpts{Threads: 1})
+	for {
+		v, err := r.Read()
+		fmt.Println("read:", v != nil, err)
+		if v == nil || err != nil {
+			break
 		}
-		runtime.ReadMemStats(&m1)
-		fmt.Printf("zng chain depth=%d len=%d values=%d err=%v alloc=%d MB time=%v\n", n, len(in), nv, rerr, (m1.TotalAlloc-m0.TotalAlloc)>>20, time.Since(t0))
+		fmt.Println("type:", zson.FormatType(v.Type()))
+		fmt.Printf("bytes: %x\n", v.Bytes())
+		fmt.Println("issue:", oracle.CheckValue(*v))
+		for _, tv := range oracle.TypeLeaves(*v) {
+			fmt.Printf("  typeleaf %x\n", tv)
+		}
 	}
 }
